@@ -227,8 +227,10 @@ def gen_dyn_case(rng):
   for _ in range(50):
     body = c19.gen_file(rng, w, 0, {}, {})
     binds = [st for st in body if st.get('k') in ('bind', 'bindref')]
-    if not c19.any_expect(body) and binds and not any(st.get('k') == 'unit' for st in body):
-      break
+    kinds = [st.get('k') for st in body]
+    first = next((i for i, k in enumerate(kinds) if k in ('bind', 'bindref')), len(kinds))
+    if (not c19.any_expect(body) and binds and 'unit' not in kinds and 'imp' not in kinds[first:]):
+      break    # (imports all come first: the unknown names below are judged against one symbol table)
   else:
     return None
   symtab = next(st['_symtab'] for st in body if st.get('k') == 'nop')
